@@ -13,8 +13,11 @@ shape, src/virtual.c mute rule, src/player.c volume / pan tails).
 * `C14_silence*` — voice volume 0 from the first tick ⇒ the voice adds nothing, ever; all
   contributions zero ⇒ buffer zero ⇒ output is the mid-scale constant; muted root ⇒ voice
   volume 0; master volume 0 ⇒ voice volume 0 **for module channels** (`…_master_partial`).
-  The full statement is false for the code as it is: background (NNA) voices are scaled by
-  the effects-mixer volume (`C14_silence_master_counterexample`, finding F6).
+  The full statement (`SilenceMasterFull`) is false for the pinned code: background (NNA)
+  voices are scaled by the effects-mixer volume (`C14_silence_master_counterexample`, finding
+  F6); it is proved for the repaired rule (`C14_silence_master_full`); which of the two applies
+  to the working tree is decided from the regenerated `nnaRootRule`
+  (`C14_silence_master_status`).
 * `C14_separation*` — separation 0 ⇒ `vol_l = vol_r` and identical left/right frames for a
   whole voice tick; `mix ↦ -mix` negates the pan (C division is odd), swaps `(vol_l, vol_r)`
   and swaps the left/right frames and state of a whole voice tick.
@@ -217,33 +220,49 @@ theorem C14_silence_mute (c : PlayerVol) (muted : Nat → Bool) (chn root : Nat)
 
 example : voiceVol ⟨4, 4, 100, 100⟩ (fun r => r == 2) 7 2 1024 = 0 := by decide
 
-/-
-Full statement (FALSE on the code as it is, see the counterexample below):
-  theorem C14_silence_master : c.masterVol = 0 → voiceVol c muted chn root fv = 0
-for every virtual channel `chn` whose root is a module channel.
--/
-
 /-- **Master volume 0** silences every voice that plays on a module channel itself
-(`chn < mod.chn`).  Missing from the full statement: background (NNA) voices, which play on
-virtual channels `chn ≥ num_tracks` and are scaled by `smix_vol` instead. -/
+(`chn < mod.chn`) — whichever rule the code has for background voices. -/
 theorem C14_silence_master_partial (c : PlayerVol) (muted : Nat → Bool) (chn root : Nat) (fv : Int)
     (h0 : c.masterVol = 0) (hc : chn < c.modChn) : voiceVol c muted chn root fv = 0 := by
-  simp [voiceVol, virtSetVol, masterStage, hc, h0]
+  simp [voiceVol, virtSetVol, masterStage, usesMaster, hc, h0]
 
 example : voiceVol ⟨4, 4, 0, 100⟩ (fun _ => false) 3 3 1024 = 0 := by decide
 
-/-- **Counterexample (finding F6)**: with master volume 0 a background voice of module
-channel 0 (virtual channel 4 of a 4-channel module without effects-mixer channels) keeps
-its full volume.  Replayed on the real library by harness/c14_mixlinear.c (signature
+/-- The full statement: master volume 0 silences every voice of the module — those on module
+channels and the background (NNA) voices whose root is a module channel. -/
+def SilenceMasterFull : Prop :=
+  ∀ (c : PlayerVol) (muted : Nat → Bool) (chn root : Nat) (fv : Int),
+    c.masterVol = 0 → c.modChn ≤ c.numTracks → (chn < c.modChn ∨ (c.numTracks ≤ chn ∧ root < c.modChn)) →
+    voiceVol c muted chn root fv = 0
+
+/-- With the repaired rule the full statement holds. -/
+theorem C14_silence_master_full (h : nnaRootRule = true) : SilenceMasterFull := by
+  intro c muted chn root fv h0 _ hcls
+  have hu : usesMaster c chn root = true := by
+    rcases hcls with hc | ⟨h1, h2⟩
+    · simp [usesMaster, hc]
+    · simp [usesMaster, h, h1, h2]
+  simp [voiceVol, virtSetVol, masterStage, hu, h0]
+
+/-- **Counterexample (finding F6)** for the pinned rule: with master volume 0 a background voice
+of module channel 0 (virtual channel 4 of a 4-channel module without effects-mixer channels)
+keeps its full volume.  Replayed on the real library by harness/c14_mixlinear.c (signature
 `silence:master_vol:nna`). -/
-theorem C14_silence_master_counterexample :
-    ¬ (∀ (c : PlayerVol) (muted : Nat → Bool) (chn root : Nat) (fv : Int),
-        c.masterVol = 0 → c.modChn ≤ c.numTracks → root < c.modChn →
-        voiceVol c muted chn root fv = 0) := by
-  intro h
-  have := h ⟨4, 4, 0, 100⟩ (fun _ => false) 4 0 1024 rfl (by decide) (by decide)
-  revert this
-  decide
+theorem C14_silence_master_counterexample (h : nnaRootRule = false) : ¬ SilenceMasterFull := by
+  intro hf
+  have h1 := hf ⟨4, 4, 0, 100⟩ (fun _ => false) 4 0 1024 rfl (by decide) (by decide)
+  have h2 : voiceVol ⟨4, 4, 0, 100⟩ (fun _ => false) 4 0 1024 = 1024 := by
+    simp [voiceVol, virtSetVol, masterStage, usesMaster, h, maxChannels, smixDiv]
+  omega
+
+/-- **Status of the master-volume half on the current working tree** (decided from the
+regenerated `nnaRootRule`): either the code has the repaired rule and the full statement is
+proved, or it has the pinned rule and the full statement is refuted. -/
+theorem C14_silence_master_status :
+    (nnaRootRule = true ∧ SilenceMasterFull) ∨ (nnaRootRule = false ∧ ¬ SilenceMasterFull) := by
+  cases h : nnaRootRule
+  · exact Or.inr ⟨rfl, C14_silence_master_counterexample h⟩
+  · exact Or.inl ⟨rfl, C14_silence_master_full h⟩
 
 /-! ## Separation -/
 
